@@ -161,6 +161,7 @@ type rw struct {
 	skip   map[ast.Node]bool // comm statements / their recv exprs handled by select rewrite
 	recv2  map[ast.Node]bool // recv exprs in 2-value assignment context
 	usedVS bool
+	lib    bool // a package of the library under test (not the harness)
 	gen    map[*ast.BlockStmt]bool // blocks generated for select / range-over-map (last statement carries a label)
 	stats  map[string]int
 }
@@ -201,7 +202,7 @@ func rewritePkg(fset *token.FileSet, imp types.Importer, dir, importPath, outDir
 	}
 	total := map[string]int{}
 	for i, f := range files {
-		r := &rw{fset: fset, info: info, pkg: pkg, skip: map[ast.Node]bool{}, recv2: map[ast.Node]bool{}, gen: map[*ast.BlockStmt]bool{}, stats: map[string]int{}}
+		r := &rw{lib: !strings.HasPrefix(importPath, *harnMod+"/") && importPath != *harnMod, fset: fset, info: info, pkg: pkg, skip: map[ast.Node]bool{}, recv2: map[ast.Node]bool{}, gen: map[*ast.BlockStmt]bool{}, stats: map[string]int{}}
 		r.file(f)
 		for k, v := range r.stats {
 			total[k] += v
@@ -419,6 +420,9 @@ func (r *rw) file(f *ast.File) {
 		return true
 	}
 	astutil.Apply(f, pre, post)
+	if r.lib {
+		r.resetPackageVars(f)
+	}
 	if r.usedVS {
 		have := false
 		for _, is := range f.Imports {
@@ -430,6 +434,48 @@ func (r *rw) file(f *ast.File) {
 			astutil.AddNamedImport(r.fset, f, "vsched", *shimRoot+"/vsched")
 		}
 	}
+}
+
+// resetPackageVars: every package-level variable of the library is given its initial value again at the
+// start of each execution (the explorer assumes that every execution starts from the same state; a
+// changed library may keep a free list, a scratch buffer, a cache or a counter at package level).
+func (r *rw) resetPackageVars(f *ast.File) {
+	var stmts []ast.Stmt
+	for _, d := range f.Decls {
+		gd, ok := d.(*ast.GenDecl)
+		if !ok || gd.Tok != token.VAR {
+			continue
+		}
+		for _, sp := range gd.Specs {
+			vsp := sp.(*ast.ValueSpec)
+			if len(vsp.Values) != 0 && len(vsp.Values) != len(vsp.Names) {
+				continue // (a, b = f(): left alone)
+			}
+			for i, n := range vsp.Names {
+				if n.Name == "_" {
+					continue
+				}
+				var rhs ast.Expr
+				if len(vsp.Values) != 0 {
+					rhs = vsp.Values[i]
+				} else if vsp.Type != nil {
+					rhs = &ast.StarExpr{X: &ast.CallExpr{Fun: id("new"), Args: []ast.Expr{vsp.Type}}}
+				} else {
+					continue
+				}
+				stmts = append(stmts, &ast.AssignStmt{Lhs: []ast.Expr{id(n.Name)}, Tok: token.ASSIGN, Rhs: []ast.Expr{rhs}})
+				r.stats["pkgvar"]++
+			}
+		}
+	}
+	if len(stmts) == 0 {
+		return
+	}
+	lit := &ast.FuncLit{Type: &ast.FuncType{Params: &ast.FieldList{}}, Body: &ast.BlockStmt{List: stmts}}
+	f.Decls = append(f.Decls, &ast.FuncDecl{
+		Name: id("init"), Type: &ast.FuncType{Params: &ast.FieldList{}},
+		Body: &ast.BlockStmt{List: []ast.Stmt{&ast.ExprStmt{X: r.vs("RegisterReset", lit)}}},
+	})
 }
 
 func (r *rw) goStmt(g *ast.GoStmt) ast.Stmt {
@@ -517,7 +563,12 @@ func (r *rw) selectStmt(s *ast.SelectStmt) ast.Stmt {
 		default:
 			fatalf("unsupported comm clause")
 		}
-		body := append([]ast.Stmt{op}, cc.Body...)
+		body := []ast.Stmt{op}
+		if _, isSend := cc.Comm.(*ast.SendStmt); isSend {
+			// post-publish point, as after a plain send: what the sender does next may race with the receiver
+			body = append(body, &ast.ExprStmt{X: r.vs("PointOp", &ast.SelectorExpr{X: id("vsched"), Sel: id("OpAfter")})})
+		}
+		body = append(body, cc.Body...)
 		clauses = append(clauses, &ast.CaseClause{List: []ast.Expr{&ast.BasicLit{Kind: token.INT, Value: strconv.Itoa(idx)}}, Body: body})
 		idx++
 	}
